@@ -439,14 +439,8 @@ class Machine:
 
     def retire_aliases(self, v):
         self.retire_if_nan(v)
-        def stor(u):
-            try:
-                return u.pt.physical.untyped_storage().data_ptr()
-            except Exception:
-                return None
-        sv = stor(v)
         for w in self.vars:
-            if w is not v and w.live and (w.alias == v.alias or (sv is not None and stor(w) == sv)):
+            if w is not v and w.live and w.alias == v.alias:
                 # what a view shows after its source was written to is not specified by the statement; but whatever it
                 # denotes afterwards (its own to_dense()) is what every later operation on it has to agree with.  Its model
                 # is re-read from to_dense() once the in-place operation is done (see reread_aliases) -- nothing is asserted
@@ -1029,7 +1023,6 @@ class Machine:
         x.model = y.model.clone()
         x.sig = copy.deepcopy(y.sig)
         self.retire_aliases(x)
-        x.alias = self.new_alias()
         if not same(x.pt.to_dense(), x.model):
             V('denotation', ['copy_'], f'after copy_: {x.pt.to_dense().tolist()} vs {x.model.tolist()}')
         bad = check_invariant(self.IX, x.pt)
@@ -1060,7 +1053,6 @@ class Machine:
         if pt is not x.pt:
             V('in-place-identity', ['itruediv_t' if div else 'imul_t'], 'in-place operator returned another object')
         self.retire_aliases(x)
-        x.alias = self.new_alias()
         ok = same_div(x.pt.to_dense(), x.model, y.model == 0) if div else same(x.pt.to_dense(), x.model, exact=True)
         if not ok:
             V('denotation', ['itruediv_t' if div else 'imul_t'], f'{x.pt.to_dense().tolist()} vs {x.model.tolist()}')
